@@ -17,6 +17,7 @@ From TI Require Import model.RArgs proofs.RArgsBasics proofs.RArgsProofs proofs.
 From TI Require Import model.RArgsVal proofs.RArgsValProofs.
 From TI Require Import model.RArgsSub proofs.RArgsSubProofs.
 From TI Require model.RArgsIntern proofs.RArgsInternProofs.
+From TI Require model.RArgsRel proofs.RArgsRelProofs.
 
 (** the invariant holds initially *)
 Theorem C16_initial_heap_wf : forall F, wf_forest F -> WF F heap0.
@@ -563,3 +564,64 @@ Theorem C16_interned_default_presence_test_refuted :
     exists o', RArgsIntern.interned s = Some o' /\ o' <> o /\ RArgsIntern.heap s o' = Some tt.
 Proof. exact RArgsInternProofs.presence_test_refuted. Qed.
 Print Assumptions C16_interned_default_presence_test_refuted.
+
+(** ** What equality / hash / compatibility READ ([model/RArgsRel.v])
+
+    Namespace subclasses may override the documented public methods [as_dict()],
+    [get_fields()], [__repr__] (an instance is (render class, export descriptor, fields)).
+    For instances of ANY such classes: equal namespaces hash equal, equal sets hash equal, and
+    [==] / [hash] of namespaces and of sets are functions of the associated class and the FIELD
+    values only - a base-class instance and a subclass instance with equal fields are
+    interchangeable as keys. *)
+Theorem C16_subclass_hash_ignores_exports :
+  (forall a b, RArgsRel.x_eq a b = true ->
+               RArgsRel.x_hash RArgsRel.HashFields a = RArgsRel.x_hash RArgsRel.HashFields b) /\
+  (forall s t, RArgsRel.xset_eq s t = true ->
+               RArgsRel.xset_hash RArgsRel.HashFields s = RArgsRel.xset_hash RArgsRel.HashFields t) /\
+  (forall e a b, RArgsRel.x_eq (RArgsRel.with_export e a) b = RArgsRel.x_eq a b /\
+                 RArgsRel.x_eq a (RArgsRel.with_export e b) = RArgsRel.x_eq a b) /\
+  (forall e a, RArgsRel.x_hash RArgsRel.HashFields (RArgsRel.with_export e a) =
+               RArgsRel.x_hash RArgsRel.HashFields a) /\
+  (forall e c l, RArgsRel.xset_hash RArgsRel.HashFields (c, map (RArgsRel.with_export e) l) =
+                 RArgsRel.xset_hash RArgsRel.HashFields (c, l)).
+Proof. exact RArgsRelProofs.subclass_hash_ignores_exports. Qed.
+Print Assumptions C16_subclass_hash_ignores_exports.
+
+(** the excluded design, hash computed from the values of the (overridable) export: equal
+    namespaces - and the equal sets holding them - hash differently *)
+Theorem C16_hash_through_the_export_refuted :
+  exists a b, RArgsRel.x_eq a b = true /\ RArgsRel.x_eq b a = true /\
+              RArgsRel.x_hash RArgsRel.HashExport a <> RArgsRel.x_hash RArgsRel.HashExport b /\
+              RArgsRel.xset_eq (RArgsRel.x_cls a, [a]) (RArgsRel.x_cls b, [b]) = true /\
+              RArgsRel.xset_hash RArgsRel.HashExport (RArgsRel.x_cls a, [a]) <>
+              RArgsRel.xset_hash RArgsRel.HashExport (RArgsRel.x_cls b, [b]).
+Proof. exact RArgsRelProofs.hash_through_export_refuted. Qed.
+Print Assumptions C16_hash_through_the_export_refuted.
+
+(** The class universe has TWO relations: inheritance (the forest) and registration
+    ([Base.register(Cls)], [abc]: [issubclass] true, not in the MRO).  "Associated with the
+    target class or one of its ancestors" is the inheritance relation: the acceptance test of
+    the code is that rule whatever is registered; [issubclass] extends the ancestor relation
+    strictly, and the namespaces of a merely registered base are rejected. *)
+Theorem C16_virtual_subclass_is_not_an_ancestor :
+  (forall U t c, RArgsRel.u_accept RArgsRel.ByHierarchy U t c = RArgsRel.u_rule U t c) /\
+  (forall U reg t c,
+      RArgsRel.u_accept RArgsRel.ByHierarchy (RArgsRel.with_reg U reg) t c =
+      RArgsRel.u_accept RArgsRel.ByHierarchy U t c /\
+      RArgsRel.u_rule (RArgsRel.with_reg U reg) t c = RArgsRel.u_rule U t c) /\
+  (forall U t c, anc (RArgsRel.u_F U) c t = true -> RArgsRel.issubclass U t c = true) /\
+  (exists U t c, RArgsRel.issubclass U t c = true /\ anc (RArgsRel.u_F U) c t = false /\
+                 RArgsRel.u_accept RArgsRel.ByHierarchy U t c = false /\
+                 RArgsRel.u_accept RArgsRel.ByHierarchy U c c = true /\
+                 RArgsRel.u_accept RArgsRel.ByHierarchy U t t = true).
+Proof. exact RArgsRelProofs.virtual_subclass_is_not_an_ancestor. Qed.
+Print Assumptions C16_virtual_subclass_is_not_an_ancestor.
+
+(** the excluded test [issubclass(render_cls, namespace._RENDER_CLS)]: a namespace of a class
+    that is not in the hierarchy of the target (no default for it there) is accepted *)
+Theorem C16_compatibility_by_issubclass_refuted :
+  exists U t c, RArgsRel.u_accept RArgsRel.ByIssubclass U t c = true /\
+                RArgsRel.u_rule U t c = false /\
+                existsb (Nat.eqb c) (keys (RArgsRel.u_F U) t) = false.
+Proof. exact RArgsRelProofs.compatibility_by_issubclass_refuted. Qed.
+Print Assumptions C16_compatibility_by_issubclass_refuted.
